@@ -209,7 +209,8 @@ def cntL (g : Nat) (l : List T) : Nat := ((objsT.objsL l).map (·.gp)).count g
 
 theorem cntL_take_drop (g : Nat) (l : List T) (i : Nat) (x : T) :
     cntL g (l.take i ++ x :: l.drop i) = cntL g l + cntT g x := by
-  have h : cntL g l = cntL g (l.take i ++ l.drop i) := by rw [List.take_append_drop]
+  have h : cntL g l = cntL g (l.take i) + cntL g (l.drop i) := by
+    rw [← cntL_append, List.take_append_drop]
   rw [h]; simp; omega
 
 def size (t : T) : Nat := (objsT t).length
@@ -225,5 +226,350 @@ theorem sizeL_mem {c : T} {l : List T} (h : c ∈ l) : size c ≤ sizeL l := by
     rcases List.mem_cons.mp h with rfl | h
     · simp [size]
     · have := ih h; omega
+
+
+/-! ### the main invariant -/
+
+theorem pairwise_insert {R : T → T → Prop} (hs : ∀ a b, R a b → R b a) {l : List T} (hl : l.Pairwise R) {x : T}
+    (hx : ∀ c ∈ l, R x c) (i : Nat) : (l.take i ++ x :: l.drop i).Pairwise R := by
+  have hsplit : (l.take i ++ l.drop i).Pairwise R := by rw [List.take_append_drop]; exact hl
+  have h3 := List.pairwise_append.mp hsplit
+  refine List.pairwise_append.mpr ⟨h3.1, ?_, ?_⟩
+  · exact List.pairwise_cons.mpr ⟨fun b hb => hx b (List.mem_of_mem_drop hb), h3.2.1⟩
+  · intro a ha b hb
+    rcases List.mem_cons.mp hb with rfl | hb
+    · exact hs _ _ (hx a (List.mem_of_mem_take ha))
+    · exact h3.2.2 a ha b hb
+
+/-- what every outcome of an insertion below `orig` satisfies -/
+def Good (g0 : Nat) (orig : T) : Res → Prop
+  | .stuck => False
+  | .inserted t' => Lam t' ∧ t'.o.key = orig.o.key ∧ ∀ g, cntT g t' = cntT g orig + (if g0 = g then 1 else 0)
+  | .merged t' _ => Lam t' ∧ t'.o.key = orig.o.key ∧ ∀ g, cntT g t' = cntT g orig
+  | .failed t' => t'.o.key = orig.o.key ∧ ∀ g, cntT g t' = cntT g orig
+
+theorem Good.wrap {g0 : Nat} {co : IObj} {before rest : List T} {c : T} {r : Res}
+    (h : Good g0 c r) (hL : Lam (.node co (before ++ c :: rest))) :
+    Good g0 (.node co (before ++ c :: rest)) (r.wrap co before rest) := by
+  have key : ∀ c' : T, Lam c' → c'.o.key = c.o.key → Lam (.node co (before ++ c' :: rest)) := by
+    intro c' hl' hk
+    refine .mk ?_ ?_ ?_
+    · intro x hx
+      rcases List.mem_append.mp hx with hx | hx
+      · exact hL.kids_sub x (List.mem_append_left _ hx)
+      · rcases List.mem_cons.mp hx with rfl | hx
+        · rw [hk]; exact hL.kids_sub c (by simp)
+        · exact hL.kids_sub x (by simp [hx])
+    · have hp := List.pairwise_append.mp hL.kids_pw
+      have hc := List.pairwise_cons.mp hp.2.1
+      refine List.pairwise_append.mpr ⟨hp.1, List.pairwise_cons.mpr ⟨?_, hc.2⟩, ?_⟩
+      · intro b hb; show dj c'.o.key b.o.key; rw [hk]; exact hc.1 b hb
+      · intro a ha b hb
+        rcases List.mem_cons.mp hb with rfl | hb
+        · show dj a.o.key b.o.key; rw [hk]; exact hp.2.2 a ha c (by simp)
+        · exact hp.2.2 a ha b (by simp [hb])
+    · intro x hx
+      rcases List.mem_append.mp hx with hx | hx
+      · exact hL.kids_lam x (List.mem_append_left _ hx)
+      · rcases List.mem_cons.mp hx with rfl | hx
+        · exact hl'
+        · exact hL.kids_lam x (by simp [hx])
+  cases r with
+  | stuck => exact h
+  | inserted c' =>
+    obtain ⟨hl', ho, hc⟩ := h
+    refine ⟨key c' hl' ho, rfl, fun g => ?_⟩
+    simp [hc g]; omega
+  | merged c' m =>
+    obtain ⟨hl', ho, hc⟩ := h
+    refine ⟨key c' hl' ho, rfl, fun g => ?_⟩
+    simp [hc g]
+  | failed c' =>
+    obtain ⟨ho, hc⟩ := h
+    refine ⟨rfl, fun g => ?_⟩
+    simp [hc g]
+
+
+theorem cntL_putback (g : Nat) : ∀ (taken lst : List T), cntL g (putback lst taken) = cntL g lst + cntL g taken := by
+  intro taken
+  induction taken with
+  | nil => intro lst; simp [putback]
+  | cons c cs ih =>
+    intro lst
+    simp only [putback, cntL_append, ih, cntL_cons]
+    have h : cntL g lst = cntL g (lst.takeWhile (fun x => firstLt x.o.ckey c.o.ckey)) + cntL g (lst.dropWhile (fun x => firstLt x.o.ckey c.o.ckey)) := by
+      rw [← cntL_append, List.takeWhile_append_dropWhile]
+    omega
+
+/-- the loop invariant; `IH` is the statement for the (smaller) children -/
+theorem insLoop_good (N : Nat)
+    (IH : ∀ c : T, size c < N → ∀ obj : IObj, Lam c → sub obj.key c.o.key → Good obj.gp c (ins obj c))
+    (co : IObj) (kids : List T) (hL : Lam (.node co kids)) (g0 k0 : Nat) (hk0 : sub k0 co.key) :
+    ∀ (rest before taken : List T) (putp : Option Nat) (obj : IObj), obj.gp = g0 → obj.key = k0 →
+      kids = before ++ rest ∨ taken ≠ [] →
+      (∀ g, cntL g before + cntL g taken + cntL g rest = cntL g kids) →
+      (∀ c ∈ before, dj k0 c.o.key) →
+      (∀ c ∈ taken, sub c.o.key k0 ∧ c.o.key ≠ 0) →
+      (before ++ rest).Pairwise DJ → taken.Pairwise DJ → (∀ d ∈ taken, ∀ c ∈ rest, DJ d c) →
+      (∀ c ∈ before ++ taken ++ rest, Lam c ∧ sub c.o.key co.key ∧ size c < N) →
+      Good g0 (.node co kids) (insLoop obj co before taken putp rest) := by
+  intro rest
+  induction rest with
+  | nil =>
+    intro before taken putp obj hg hk _ hcnt hbef htak hpw hpt _ hall
+    simp only [insLoop]
+    refine ⟨.mk ?_ ?_ ?_, rfl, fun g => ?_⟩
+    · intro c hc
+      rcases List.mem_append.mp hc with hc | hc
+      · exact (hall c (by simp [List.mem_of_mem_take hc])).2.1
+      · rcases List.mem_cons.mp hc with rfl | hc
+        · show sub obj.key co.key; rw [hk]; exact hk0
+        · exact (hall c (by simp [List.mem_of_mem_drop hc])).2.1
+    · apply pairwise_insert (fun a b h => DJ_symm h) (by simpa using hpw)
+      intro c hc; show dj obj.key c.o.key; rw [hk]; exact hbef c hc
+    · intro c hc
+      have hnew : Lam (T.node obj taken) :=
+        .mk (fun d hd => hk ▸ (htak d hd).1) hpt (fun d hd => (hall d (by simp [hd])).1)
+      rcases List.mem_append.mp hc with hc | hc
+      · exact (hall c (by simp [List.mem_of_mem_take hc])).1
+      · rcases List.mem_cons.mp hc with rfl | hc
+        · exact hnew
+        · exact (hall c (by simp [List.mem_of_mem_drop hc])).1
+    · have := hcnt g
+      simp only [cntL_nil, Nat.add_zero] at this
+      rw [cntT_node, cntL_take_drop, cntT_node, cntT_node, hg]
+      split <;> omega
+  | cons c rest ih =>
+    intro before taken putp obj hg hk hshape hcnt hbef htak hpw hpt hcross hall
+    cases c with
+    | node ko kk =>
+    simp only [insLoop]
+    have hcur := hall (T.node ko kk) (by simp)
+    have hp := List.pairwise_append.mp hpw
+    have hpc := List.pairwise_cons.mp hp.2.1
+    -- a child already taken by OBJ is disjoint from the current one; this refutes `stuck`
+    have notaken : sub k0 ko.key → taken = [] := by
+      intro hs
+      cases htk : taken with
+      | nil => rfl
+      | cons d ds =>
+        exfalso
+        have hd := htak d (by simp [htk])
+        have hdc : DJ d (T.node ko kk) := hcross d (by simp [htk]) _ (by simp)
+        exact not_dj_of_sub hd.2 (sub_refl _) (sub_trans hd.1 hs) hdc
+    cases hd : decide1 obj ko with
+    | merge o' =>
+      simp only []
+      have hm := decide1_merge hd
+      have ht : taken = [] := notaken (by rw [← hk, hm.1]; exact sub_refl _)
+      subst ht
+      have hkids : kids = before ++ T.node ko kk :: rest := by
+        rcases hshape with h | h
+        · exact h
+        · exact absurd rfl h
+      simp only [List.isEmpty_nil, if_true]
+      have hg1 : Good g0 (T.node ko kk) (.merged (T.node o' kk) ko.gp) := by
+        refine ⟨(hcur.1).congr_key hm.2.2.2.1, hm.2.2.2.1, fun g => ?_⟩
+        simp [hm.2.2.1]
+      have := Good.wrap (co := co) (before := before) (rest := rest) hg1 (hkids ▸ hL)
+      rw [hkids]; exact this
+    | recurse =>
+      simp only []
+      have hr := decide1_recurse hd
+      have ht : taken = [] := notaken (hk ▸ hr.1)
+      subst ht
+      have hkids : kids = before ++ T.node ko kk :: rest := by
+        rcases hshape with h | h
+        · exact h
+        · exact absurd rfl h
+      simp only [List.isEmpty_nil, if_true]
+      have hg1 := IH (T.node ko kk) hcur.2.2 obj hcur.1 hr.1
+      rw [hg] at hg1
+      have := Good.wrap (co := co) (before := before) (rest := rest) hg1 (hkids ▸ hL)
+      rw [hkids]; exact this
+    | fail =>
+      simp only []
+      refine ⟨rfl, fun g => ?_⟩
+      have hc := hcnt g
+      simp only [cntL_cons] at hc
+      rw [cntT_node, cntT_node]
+      congr 1
+      cases putp with
+      | none => simp only [cntL_putback, cntL_append, cntL_cons]; omega
+      | some i =>
+        simp only [cntL_append, cntL_putback]
+        have h : cntL g (List.take i (before ++ T.node ko kk :: rest)) + cntL g (List.drop i (before ++ T.node ko kk :: rest))
+            = cntL g (before ++ T.node ko kk :: rest) := by
+          rw [← cntL_append, List.take_append_drop]
+        simp only [cntL_append, cntL_cons] at h
+        omega
+    | differ =>
+      simp only []
+      have hdj := decide1_differ hd
+      apply ih (before ++ [T.node ko kk]) taken _ obj hg hk
+      · rcases hshape with h | h
+        · left; simp [h]
+        · right; exact h
+      · intro g; have := hcnt g; simp only [cntL_append, cntL_cons, cntL_nil] at *; omega
+      · intro x hx
+        rcases List.mem_append.mp hx with hx | hx
+        · exact hbef x hx
+        · simp at hx; subst hx; rw [← hk]; exact hdj
+      · exact htak
+      · simpa using hpw
+      · exact hpt
+      · intro d hd x hx; exact hcross d hd x (by simp [hx])
+      · intro x hx; apply hall
+        simp only [List.mem_append, List.mem_cons, List.not_mem_nil, or_false] at hx ⊢
+        rcases hx with ((h | h) | h) | h
+        · exact Or.inl (Or.inl h)
+        · exact Or.inr (Or.inl h)
+        · exact Or.inl (Or.inr h)
+        · exact Or.inr (Or.inr h)
+    | contain eq =>
+      simp only []
+      have hc := decide1_contain hd
+      have step : ∀ ko' obj' : IObj, ko'.key = ko.key → ko'.gp = ko.gp → obj'.gp = g0 → obj'.key = k0 →
+          Good g0 (T.node co kids) (insLoop obj' co before (taken ++ [T.node ko' kk]) putp rest) := by
+        intro ko' obj' hkk hkg hg' hk'
+        have hDJ : ∀ x : T, DJ (T.node ko kk) x → DJ (T.node ko' kk) x := by
+          intro x h; show dj ko'.key x.o.key; rw [hkk]; exact h
+        apply ih before (taken ++ [T.node ko' kk]) putp obj' hg' hk'
+        · right; simp
+        · intro g; have := hcnt g
+          simp only [cntL_append, cntL_cons, cntL_nil, cntT_node, hkg] at *; omega
+        · exact hbef
+        · intro x hx
+          rcases List.mem_append.mp hx with hx | hx
+          · exact htak x hx
+          · simp at hx; subst hx; show sub ko'.key k0 ∧ ko'.key ≠ 0; rw [hkk, ← hk]; exact ⟨hc.1, hc.2.1⟩
+        · exact List.pairwise_append.mpr ⟨hp.1, hpc.2, fun a ha b hb => hp.2.2 a ha b (by simp [hb])⟩
+        · refine List.pairwise_append.mpr ⟨hpt, by simp, ?_⟩
+          intro a ha b hb
+          simp at hb; subst hb
+          exact DJ_symm (hDJ a (DJ_symm (hcross a ha _ (by simp))))
+        · intro d hd x hx
+          rcases List.mem_append.mp hd with hd | hd
+          · exact hcross d hd x (by simp [hx])
+          · simp at hd; subst hd; exact hDJ x (hpc.1 x hx)
+        · intro x hx
+          simp only [List.mem_append, List.mem_cons, List.not_mem_nil, or_false] at hx
+          rcases hx with (h | (h | h)) | h
+          · exact hall x (by simp [h])
+          · exact hall x (by simp [h])
+          · subst h
+            refine ⟨(hcur.1).congr_key hkk, by show sub ko'.key co.key; rw [hkk]; exact hcur.2.1, ?_⟩
+            have : size (T.node ko' kk) = size (T.node ko kk) := by simp [size_node]
+            rw [this]; exact hcur.2.2
+          · exact hall x (by simp [h])
+      cases eq with
+      | false => exact step ko obj rfl rfl hg hk
+      | true => exact step { ko with mem := [] } { obj with mem := ko.mem } rfl rfl hg hk
+
+
+theorem ins_good_aux : ∀ (N : Nat) (t : T), size t < N → ∀ obj : IObj, Lam t → sub obj.key t.o.key → Good obj.gp t (ins obj t) := by
+  intro N
+  induction N with
+  | zero => intro t h; exact absurd h (Nat.not_lt_zero _)
+  | succ N ih =>
+    intro t hsz obj hL hs
+    cases t with
+    | node co kids =>
+    simp only [ins]
+    have hsz' : ∀ c ∈ kids, size c < N := by
+      intro c hc
+      have := sizeL_mem hc
+      rw [size_node] at hsz; omega
+    apply insLoop_good N ih co kids hL obj.gp obj.key hs kids [] [] none obj rfl rfl
+    · left; simp
+    · intro g; simp
+    · intro c hc; cases hc
+    · intro c hc; cases hc
+    · simpa using hL.kids_pw
+    · exact List.Pairwise.nil
+    · intro d hd; cases hd
+    · intro c hc
+      have hc' : c ∈ kids := by simpa using hc
+      exact ⟨hL.kids_lam c hc', hL.kids_sub c hc', hsz' c hc'⟩
+
+/-- **Insertion on a laminar tree.**  For every laminar tree `t` and every object whose set is included in the root's:
+the C routine never returns while children hang below the unlinked object (`stuck`); an insertion yields a laminar tree with
+exactly one more object (the new one), a merge or a refused insertion (intersection) yields a tree with exactly the same
+objects, laminar again after a merge; the root keeps its set. -/
+theorem ins_good (t : T) (obj : IObj) (hL : Lam t) (hs : sub obj.key t.o.key) : Good obj.gp t (ins obj t) :=
+  ins_good_aux (size t + 1) t (Nat.lt_succ_self _) obj hL hs
+
+
+/-! ### executable laminarity check (evaluated by the driver on the tree of every real topology before a Group insertion) -/
+
+def pwDJB : List T → Bool
+  | [] => true
+  | c :: cs => cs.all (fun x => c.o.key &&& x.o.key == 0) && pwDJB cs
+
+mutual
+def lamB : T → Bool
+  | .node o kids => kids.all (fun c => c.o.key &&& o.key == c.o.key) && pwDJB kids && lamBL kids
+def lamBL : List T → Bool
+  | [] => true
+  | c :: cs => lamB c && lamBL cs
+end
+
+theorem pwDJB_sound : ∀ l : List T, pwDJB l = true → l.Pairwise DJ := by
+  intro l
+  induction l with
+  | nil => intro _; exact List.Pairwise.nil
+  | cons c cs ih =>
+    intro h
+    simp only [pwDJB, Bool.and_eq_true, List.all_eq_true, beq_iff_eq] at h
+    exact List.pairwise_cons.mpr ⟨fun x hx => h.1 x hx, ih h.2⟩
+
+theorem lamBL_mem : ∀ (l : List T), lamBL l = true → ∀ c ∈ l, lamB c = true := by
+  intro l
+  induction l with
+  | nil => intro _ c hc; cases hc
+  | cons x xs ih =>
+    intro h c hc
+    simp only [lamBL, Bool.and_eq_true] at h
+    rcases List.mem_cons.mp hc with rfl | hc
+    · exact h.1
+    · exact ih h.2 c hc
+
+theorem lamB_sound_aux : ∀ (N : Nat) (t : T), size t < N → lamB t = true → Lam t := by
+  intro N
+  induction N with
+  | zero => intro t h; exact absurd h (Nat.not_lt_zero _)
+  | succ N ih =>
+    intro t hsz h
+    cases t with
+    | node o kids =>
+    simp only [lamB, Bool.and_eq_true, List.all_eq_true, beq_iff_eq] at h
+    refine .mk (fun c hc => h.1.1 c hc) (pwDJB_sound kids h.1.2) ?_
+    intro c hc
+    apply ih c _ (lamBL_mem kids h.2 c hc)
+    have := sizeL_mem hc
+    rw [size_node] at hsz; omega
+
+theorem lamB_sound (t : T) (h : lamB t = true) : Lam t := lamB_sound_aux (size t + 1) t (Nat.lt_succ_self _) h
+
+/-! ### the Group insertion entry point -/
+
+theorem cmpSets_included_sub {a b : Nat} (h : cmpSets a b = .included) : sub a b := (cmpSets_included h).1
+
+/-- `hwloc_topology_insert_group_object` on a laminar topology: whatever the arguments, the core insertion never loses objects, and
+its outcome is described by `Good` -/
+theorem insertGroup_good (filterGroup rootCpuset rootNodeset : Nat) (numas : List (Nat × Nat)) (root : T) (newGp : Nat) (a : GArgs)
+    (hL : Lam root) (key : Nat) (r : Res)
+    (h : insertGroup filterGroup rootCpuset rootNodeset numas root newGp a = .core key r) : Good newGp root r := by
+  unfold insertGroup at h
+  split at h
+  · cases h
+  · split at h
+    · cases h
+    · split at h
+      · rename_i hc
+        injection h with h1 h2
+        subst h2
+        exact ins_good root _ hL (cmpSets_included_sub hc)
+      · cases h
 
 end Hw.Topo.Ins
